@@ -365,6 +365,34 @@ pub fn c14(tier: Tier) -> i32 {
 }
 
 pub fn replay(v: &serde_json::Value) -> i32 {
+    if let Some(ops2) = v["replay"]["ops2"].as_array() {
+        let mut seq2 = Vec::new();
+        for o in ops2 {
+            let op = match o.as_str().unwrap_or("") {
+                "Send" => Op2::Send,
+                "Relay" => Op2::Relay,
+                "Cut" => Op2::Cut,
+                "Refuse" => Op2::Refuse,
+                "Accept" => Op2::Accept,
+                "Timer" => Op2::Timer,
+                "FailNext" => Op2::FailNext,
+                x if x.starts_with("Drop(") => Op2::Drop(x[5..x.len() - 1].parse().unwrap_or(0)),
+                _ => continue,
+            };
+            seq2.push(op);
+        }
+        let (bad, obs) = run2(&seq2);
+        println!("ops (real Receiver as peer): {:?}\nfirst deliveries seen by the handler: {}", seq2, obs);
+        for (sig, what) in &bad {
+            println!("[{}] {}", sig, what);
+        }
+        return if bad.is_empty() {
+            println!("replay did not reproduce a violation of C14");
+            0
+        } else {
+            1
+        };
+    }
     let mut seq = Vec::new();
     for o in v["replay"]["ops"].as_array().cloned().unwrap_or_default() {
         let o = o.as_str().unwrap_or("").to_string();
@@ -402,12 +430,17 @@ pub fn replay(v: &serde_json::Value) -> i32 {
 #[derive(Clone)]
 struct RecHandler {
     log: std::sync::Arc<Mutex<Vec<Vec<u8>>>>,
+    /// one-shot: the handler fails on the next message, before recording or answering it
+    fail_next: std::sync::Arc<std::sync::atomic::AtomicBool>,
 }
 
 #[async_trait::async_trait]
 impl network::MessageHandler for RecHandler {
     async fn dispatch(&self, writer: &mut network::Writer, message: Bytes) -> Result<(), Box<dyn std::error::Error>> {
         use futures::SinkExt as _;
+        if self.fail_next.swap(false, std::sync::atomic::Ordering::SeqCst) {
+            return Err("handler failure".into());
+        }
         self.log.lock().unwrap().push(message.to_vec());
         let mut ans = b"ack:".to_vec();
         ans.extend_from_slice(&message);
@@ -425,14 +458,18 @@ enum Op2 {
     Accept,
     Timer,
     Drop(u8),
+    /// the peer's handler fails on the next message it is given (the receiver must drop the
+    /// connection, so that the message is sent again and no reply gets paired with the wrong handle)
+    FailNext,
 }
 
 fn run2(seq: &[Op2]) -> (Vec<(String, String)>, String) {
     let rt = Rt::new();
     let addr: SocketAddr = "127.0.0.1:7100".parse().unwrap();
     let log = std::sync::Arc::new(Mutex::new(Vec::new()));
+    let fail_next = std::sync::Arc::new(std::sync::atomic::AtomicBool::new(false));
     let mut sender = rt.block_on(async {
-        network::Receiver::spawn(addr, RecHandler { log: log.clone() });
+        network::Receiver::spawn(addr, RecHandler { log: log.clone(), fail_next: fail_next.clone() });
         ReliableSender::new()
     });
     rt.quiesce();
@@ -468,6 +505,9 @@ fn run2(seq: &[Op2]) -> (Vec<(String, String)>, String) {
                     rt.quiesce();
                     if a.closed_by_node() {
                         b.close();
+                    }
+                    if b.closed_by_node() {
+                        a.close();
                     }
                 }
             }
@@ -520,12 +560,14 @@ fn run2(seq: &[Op2]) -> (Vec<(String, String)>, String) {
                 }
                 relay(&rt, &mut wire, refusing, false);
             }
+            Op2::FailNext => fail_next.store(true, std::sync::atomic::Ordering::SeqCst),
         }
         settle(&mut handles, &mut resolved);
     }
-    // stabilise
+    // stabilise (an armed but unused handler failure is disarmed: the fault-free suffix starts here)
     simnet::enter(rt.ns);
     simnet::set_refuse_all(false);
+    fail_next.store(false, std::sync::atomic::Ordering::SeqCst);
     for _ in 0..40 {
         relay(&rt, &mut wire, false, true);
         settle(&mut handles, &mut resolved);
@@ -571,7 +613,7 @@ fn run2(seq: &[Op2]) -> (Vec<(String, String)>, String) {
 }
 
 pub fn real_receiver_pass(rep: &mut Report, tier: Tier) {
-    let alphabet = [Op2::Send, Op2::Relay, Op2::Cut, Op2::Refuse, Op2::Accept, Op2::Timer, Op2::Drop(0), Op2::Drop(1)];
+    let alphabet = [Op2::Send, Op2::Relay, Op2::Cut, Op2::Refuse, Op2::Accept, Op2::Timer, Op2::Drop(0), Op2::Drop(1), Op2::FailNext];
     let maxlen = tier.pick(6usize, 7usize);
     let mut seqs: Vec<Vec<Op2>> = Vec::new();
     fn rec(len: usize, a: &[Op2], cur: &mut Vec<Op2>, out: &mut Vec<Vec<Op2>>) {
@@ -582,8 +624,11 @@ pub fn real_receiver_pass(rep: &mut Report, tier: Tier) {
             return;
         }
         for e in a {
-            let faults = cur.iter().filter(|o| matches!(o, Op2::Cut | Op2::Refuse | Op2::Drop(_))).count();
-            if matches!(e, Op2::Cut | Op2::Refuse | Op2::Drop(_)) && faults >= 2 {
+            let faults = cur.iter().filter(|o| matches!(o, Op2::Cut | Op2::Refuse | Op2::Drop(_) | Op2::FailNext)).count();
+            if matches!(e, Op2::Cut | Op2::Refuse | Op2::Drop(_) | Op2::FailNext) && faults >= 2 {
+                continue;
+            }
+            if *e == Op2::FailNext && cur.last() == Some(&Op2::FailNext) {
                 continue;
             }
             if *e == Op2::Accept && !cur.contains(&Op2::Refuse) {
@@ -626,7 +671,7 @@ pub fn real_receiver_pass(rep: &mut Report, tier: Tier) {
     rep.add("states", seqs.len() as u64);
     rep.add("transitions", steps);
     rep.add("traces_validated_against_impl", seqs.len() as u64);
-    rep.set("real_receiver_pass", json!({"executions": seqs.len(), "max_length": maxlen, "alphabet": "send, wire relays everything in flight, wire cut, refuse/accept connects, back-off timer, drop handle 0/1; at most 2 faults"}));
+    rep.set("real_receiver_pass", json!({"executions": seqs.len(), "max_length": maxlen, "alphabet": "send, wire relays everything in flight, wire cut, refuse/accept connects, back-off timer, drop handle 0/1, peer handler fails on its next message; at most 2 faults"}));
 }
 
 // ---------------------------------------------------------------------------------------------
